@@ -1,4 +1,4 @@
-from props.common import vault_obligations, TRUSTED as _T
+from props.common import vault_obligations, krow_obligations, ktab_obligations, TRUSTED as _T
 
 PROPERTY = "C01"
 EXPLANATION = (
@@ -13,4 +13,4 @@ OUTSIDE = ("histories longer than one step except through the inductive argument
 ASSUMPTIONS = ["pre-states are run-length encodings with repeats >= 1 whose maps equal make_cache_map(XML)"]
 TRUSTED = _T
 
-OBLIGATIONS = vault_obligations(1)
+OBLIGATIONS = vault_obligations(1) + krow_obligations(1) + ktab_obligations(1, 60, 'nr')
